@@ -236,7 +236,7 @@ pub fn run(cfg: &RunCfg) -> PropResult {
         r.add(idx, run_case(seed, idx));
         r
     } else {
-        let n = if cfg.thorough { 3_000_000 } else { 60_000 };
+        let n = if cfg.thorough { 6_000_000 } else { 600_000 };
         run_parallel(n, workers(), |i| run_case(cfg.seed, i))
     };
     PropResult {
